@@ -91,9 +91,14 @@ def rule_tokens(rng, r):
         # check directives may come before and after @char
         pre = []
         post = []
-        for c in r['checks']:
+        # the first k check directives before `@char`, the rest after it (k random; the list keeps its order)
+        k = rng.randint(0, len(r['checks']))
+        for j, c in enumerate(r['checks']):
             toks = ['@check', '('] + sum(([p, '::'] for p in c), [])[:-1] + [')']
-            pre += toks
+            if j < k:
+                pre += toks
+            else:
+                post += toks
         out = pre + ['@char'] + post + [r['name'], '=']
         for i, p in enumerate(r['parts']):
             if i:
